@@ -705,6 +705,6 @@ mod tests {
 
 #[cfg(kani)]
 #[allow(warnings, clippy::all, clippy::pedantic)]
-mod verif_kani {
+pub(crate) mod verif_kani {
     include!(concat!(env!("IPA_VERIF_DIR"), "/harness/batcher.rs"));
 }
